@@ -96,7 +96,10 @@ func runC13(src sim.Source, o Opts) *Result {
 	if globalTS != 2 {
 		routeTS = 2
 	}
-	cfg := world.Cfg{NoMethod: true, AutoOptions: true, GlobalTS: globalTS}
+	cfg := world.Cfg{NoMethod: true, AutoOptions: true, GlobalTS: globalTS, ExtrasFirst: sim.Bool(src, "mwoptionsfirst")}
+	if cfg.ExtrasFirst {
+		res.inc("config_middleware_options_before_handler_options")
+	}
 	if ng == 0 && !useDefault && src.Intn("nospy", 2) == 1 {
 		cfg.NoRedirectSpy = true // a router without a single global middleware
 		res.inc("config_no_global_middleware_at_all")
